@@ -57,6 +57,10 @@ CLAIMS.update({
    text="Fragment only (one necessary condition of the statement): signedness discipline of the operator lowering. With the LLVM type class of every IR value tracked by the builder contracts, it is proved for every admissible (operator, operand classes) tuple of the unary, binary-numeric and zwischen operators and of numeric assignment that a Byte (the only i8 class, unsigned) is never the operand of a sign-dependent instruction (sitofp, sext, sdiv, srem, signed icmp, fptosi to i8) and that the unsigned variants are used only on Bytes. This is value-independent, so it holds for every operand value. Everything else in C01 (precedence, short-circuit evaluation, loops, indexing, equality, output) is not decided by this check.",
    note="Trusted: as for C02 (llir builder contracts, induction hypothesis on evaluate, wfCompiler).",
    ref="6/C01"),
+ "C15": dict(
+   text="Fragment (the ddptypes side of the statement). The binding step of unification (the closure unifyType of UnifyGenericType) is proved against its map specification: an already-bound type parameter keeps its first binding and returns it (so that the caller's comparison with the argument type rejects a second, different binding), an unbound one is bound to the argument, and no other binding changes. The struct instantiation cache GetInstantiatedStructType is proved, with a loop invariant over the cached list, to return the first cached instantiation whose type arguments are pairwise equivalent to the requested ones (equal arguments: one and the same type object), otherwise a fresh object distinct from every cached one that is appended to the cache, and nil exactly on an arity mismatch. Not decided: re-parsing of generic function bodies, the per-module function cache, the merged symbol table, and code generation of instantiations (they are behavioural equivalences between two parses, outside function contracts).",
+   note="Trusted: slices.EqualFunc (result is the uninterpreted relation eqAllBy of its three arguments), immutability of StructType.instantiatedWith after construction, map model of the engine.",
+   ref="6/C15"),
 })
 NA = {
  "C08": "relational whole-program property (no holder observes another holder's mutation); no function contract within reach states it; the local copy/claim mechanics are covered under C05/C18 where claimed",
